@@ -639,7 +639,7 @@ def main(argv_tier=None, replay_path=None):
             gen_runs["simulate D=%d %s" % (depth, kind)] = {"walks": num, "histories": len(hs)}
             other += mk(kind, hs, "tlc-simulate")
     rnd = random.Random(seed() + 20)
-    nrand = 3000 if quick else 40000
+    nrand = 2000 if quick else 40000
     for kind in KINDS:
         other += mk(kind, [random_history(rnd, kind, 50) for _ in range(nrand)], "random")
         other += mk(kind, [random_history(rnd, kind, 50) for _ in range(nrand // 2)], "random", obs="sparse")
